@@ -53,8 +53,9 @@ def gen_plan(rng, prop):
            "leaf_reservoir_length": rng.randint(1, 6), "tree_seed": rng.randint(0, 2 ** 20),
            "use_storage": rng.random() < 0.6, "direct": rng.random() < 0.4, "seed": rng.getrandbits(32),
            "explainer": wchoice(rng, [(None, 60), ("pfi", 20), ("sage", 20)])}
-    T = wchoice(rng, [(rng.randint(30, 80), 35), (rng.randint(80, 200), 45), (rng.randint(200, 400), 20)])
-    n_drift = wchoice(rng, [(0, 15), (1, 35), (2, 30), (3, 20)])
+    T = wchoice(rng, [(rng.randint(30, 80), 25), (rng.randint(80, 200), 35), (rng.randint(200, 400), 30),
+                      (rng.randint(400, 700), 10)])
+    n_drift = wchoice(rng, [(0, 10), (1, 25), (2, 30), (3, 20), (4, 15)])
     cfg["drifts"] = sorted(rng.sample(range(10, max(11, T)), min(n_drift, max(0, T - 10))))
     names = cfg["cat"] + cfg["num"]
     ops = []
@@ -304,7 +305,7 @@ def run_tree_plan(plan):
 class C19Check(Check):
     prop = "C19"
     design_ref = "DESIGN.md section 4, C19"
-    runs = {"quick": 320, "thorough": 30000}
+    runs = {"quick": 1000, "thorough": 40000}
     rule = ("plans = (categorical/numerical feature mix, max_depth, grace period, reservoir length, tree seed, drift times, "
             "TreeImputer mode, update/impute/explain schedule); non-trivial = at least one update judged; distinct = digest "
             "of (leaf-id sets per feature after every operation, model inputs)")
